@@ -60,6 +60,156 @@ fn verif_witness_search_errors() {
   println!("WITNESS-SEARCH: no violating history found (23 erroneous programs)");
 }
 
+// Witness search for the C06 use-site units (`usegates`, `ssanames`, and the gates above): single-fault mutants of
+// accepted programs.  Every entry is (kind of fault, accepted program, text to replace, replacement): the accepted
+// program must compile, the mutant must parse without syntax errors and must be rejected.
+#[test]
+fn verif_witness_search_single_fault_mutants() {
+  let base = r#"interface Shape { method area(): int }
+interface Comparable<T> { method compare(other: T): int }
+class Opt<T>(None, Some(T)) {
+  method isNone(): bool = match (this) { None -> true, Some(_) -> false }
+  method <R> map(f: (T) -> R): Opt<R> = match (this) { None -> Opt.None<R>(), Some(v) -> Opt.Some(f(v)) }
+}
+class Pair<A, B>(val first: A, val second: B) {
+  method swap(): Pair<B, A> = Pair.init(this.second, this.first)
+}
+class Sq(val side: int) : Shape, Comparable<Sq> {
+  method area(): int = this.side * this.side
+  method compare(other: Sq): int = this.side - other.side
+}
+class Cmp { function <C: Comparable<C>> max(a: C, b: C): C = if a.compare(b) < 0 { b } else { a } }
+class Item(val tag: Opt<int>, val weight: int) {}
+class Main {
+  function add(a: int, b: int): int = a + b
+  function <T> first(a: T, b: T): T = a
+  function sign(a: int): int = if a < 0 { 0 - 1 } else if a == 0 { 0 } else { 1 }
+  function total(item: Item): int = match (item) { { tag as Some(n), weight } -> n + weight, { tag as None, weight } -> weight }
+  function weigh(item: Item): int = { let { tag as _, weight } = item; weight }
+  function size(o: Opt<Sq>): int = match (o) { None -> 0, Some(s) -> s.area() }
+  function both(p: Pair<Opt<int>, bool>): int = match (p) { { first as Some(n), second } -> n, { first as None, second } -> 0 }
+  function apply(f: (int, int) -> int): int = f(1, 2)
+  function main(): unit = {
+    let a = Main.add(1, 2);
+    let o = Opt.Some(a).map((x) -> x + 1);
+    let e = Opt.None<int>();
+    let n = Opt.None<bool>();
+    let p = Pair.init(o, true).swap().swap();
+    let (x, y) = (1, 2);
+    let big = Cmp.max(Sq.init(2), Sq.init(3));
+    let f: (int, int) -> int = Main.add;
+    let s = "n=" :: Str.fromInt(Main.first(a, x) + Main.sign(y) + Main.total(Item.init(e, 3)) + Main.both(p) + Main.apply(f));
+    let _ = Process.println(if o.isNone() && !e.isNone() || n.isNone() { s } else { Str.fromInt(Main.size(Opt.Some(big)) + Main.weigh(Item.init(o, 4))) });
+  }
+}"#;
+  let mutants: [(&str, &str, &str); 59] = [
+    // operands and arguments of the wrong type
+    ("operand of + is a bool", "let a = Main.add(1, 2);", "let a = Main.add(1, 2) + true;"),
+    ("operand of ! is an int", "!e.isNone()", "!3"),
+    ("operand of && is an int", "o.isNone() && ", "1 && "),
+    ("operand of unary - is a bool", "0 - 1 }", "-true }"),
+    ("operand of :: is an int", "\"n=\" :: ", "7 :: "),
+    ("operands of == have different types", "a == 0", "a == \"0\""),
+    ("operand of < is a string", "if a < 0 {", "if a < \"0\" {"),
+    ("condition of if is an int", "if a < 0 {", "if a {"),
+    ("argument of a function is a bool", "Main.sign(y)", "Main.sign(true)"),
+    ("argument of a method is a string", "s.area()", "s.compare(\"x\")"),
+    ("argument of a constructor is a bool", "Sq.init(2)", "Sq.init(false)"),
+    ("argument of a variant constructor disagrees with the annotation", "let e = Opt.None<int>();", "let e: Opt<int> = Opt.Some(true);"),
+    ("argument of a function value is a string", "f(1, 2)", "f(1, \"2\")"),
+    ("argument of a generic function disagrees with the other argument", "Main.first(a, x)", "Main.first(a, \"x\")"),
+    ("a lambda's body has the wrong type for its expected function type", "(x) -> x + 1", "(x) -> x && true"),
+    ("function value of the wrong type", "let f: (int, int) -> int = Main.add;", "let f: (int, int) -> int = Main.sign;"),
+    // results of the wrong type
+    ("function body of the wrong type", "function add(a: int, b: int): int = a + b", "function add(a: int, b: int): int = a < b"),
+    ("else branch of the wrong type", "else { 1 }", "else { \"positive\" }"),
+    ("else-if branch of the wrong type", "else if a == 0 { 0 } else { 1 }", "else if a == 0 { \"zero\" } else { \"positive\" }"),
+    ("else-if branch of the wrong type (middle only)", "else if a == 0 { 0 }", "else if a == 0 { \"zero\" }"),
+    ("match arm of the wrong type", "None -> 0, Some(s) -> s.area()", "None -> false, Some(s) -> s.area()"),
+    ("declared type disagrees with the initialiser", "let a = Main.add(1, 2);", "let a: bool = Main.add(1, 2);"),
+    ("method body of the wrong type", "method area(): int = this.side * this.side", "method area(): int = this.side == this.side"),
+    // wrong number of arguments / type arguments
+    ("too many arguments", "Main.sign(y)", "Main.sign(y, y)"),
+    ("too few arguments", "Main.add(1, 2);", "Main.add(1);"),
+    ("no argument where one is needed", "Main.sign(y)", "Main.sign()"),
+    ("too few arguments of a generic function", "Main.first(a, x)", "Main.first(a)"),
+    ("too few arguments of a constructor", "Item.init(e, 3)", "Item.init(e)"),
+    ("too few arguments of a method", "a.compare(b)", "a.compare()"),
+    ("too few arguments of a function value", "f(1, 2)", "f(1)"),
+    ("too many arguments of a variant constructor", "Opt.Some(a)", "Opt.Some(a, a)"),
+    ("too many type arguments in an annotation", "function size(o: Opt<Sq>)", "function size(o: Opt<Sq, Sq>)"),
+    ("missing type arguments in an annotation", "function size(o: Opt<Sq>)", "function size(o: Opt)"),
+    ("too many explicit type arguments of a member", "Opt.None<int>()", "Opt.None<int, int>()"),
+    ("type arguments for a class that has none", "val tag: Opt<int>, val weight: int", "val tag: Opt<int>, val weight: int, val s: Sq<int>"),
+    // unresolved names
+    ("unresolved variable", "Main.sign(y)", "Main.sign(yy)"),
+    ("unresolved class", "Sq.init(3)", "Sqq.init(3)"),
+    ("unresolved function of a class", "Main.sign(y)", "Main.sgn(y)"),
+    ("unresolved method", "s.area()", "s.aria()"),
+    ("unresolved field", "this.side - other.side", "this.side - other.sidee"),
+    ("unresolved class in a parameter annotation", "function size(o: Opt<Sq>)", "function size(o: Opt<Sqq>)"),
+    ("unresolved class in a return annotation", "method swap(): Pair<B, A>", "method swap(): Pairr<B, A>"),
+    ("unresolved class in a let annotation", "let e = Opt.None<int>();", "let e: Opt<Intt> = Opt.None();"),
+    ("unresolved class in explicit type arguments", "Opt.None<int>()", "Opt.None<Intt>()"),
+    ("unresolved class in explicit type arguments, value used only through its methods", "Opt.None<bool>()", "Opt.None<Booll>()"),
+    ("unresolved class in explicit type arguments inside a generic class", "Opt.None<R>()", "Opt.None<RR>()"),
+    ("unresolved class in a lambda parameter annotation", "(x) -> x + 1", "(x: Intt) -> 1"),
+    ("unresolved class in a field annotation", "val weight: int", "val weight: Intt"),
+    ("unresolved interface in an extends list", "class Sq(val side: int) : Shape, Comparable<Sq>", "class Sq(val side: int) : Shapee, Comparable<Sq>"),
+    ("unresolved variant in a pattern", "None -> 0, Some(s) -> s.area()", "Nothing -> 0, Some(s) -> s.area()"),
+    ("unresolved field in an object pattern", "let { tag as _, weight } = item;", "let { tagg as _, weight } = item;"),
+    // interface conformance and bounds
+    ("missing interface member", "method area(): int = this.side * this.side\n", "\n"),
+    ("mistyped interface member", "method area(): int = this.side * this.side", "method area(): bool = true"),
+    ("violated type-parameter bound", "Cmp.max(Sq.init(2), Sq.init(3))", "Cmp.max(Opt.Some(2), Opt.Some(3))"),
+    // matches that do not cover every case
+    ("match without the None case", "None -> 0, Some(s) -> s.area()", "Some(s) -> s.area()"),
+    ("match over an object pattern without the None case of its first field", ", { tag as None, weight } -> weight", ""),
+    ("match over an object pattern without the None case, other field first", "{ first as Some(n), second } -> n, { first as None, second } -> 0", "{ second, first as Some(n) } -> n"),
+    ("refutable object pattern in a let", "let { tag as _, weight } = item; weight", "let { tag as Some(n), weight } = item; weight + n"),
+    ("refutable tuple pattern in a let", "let p = Pair.init(o, true).swap().swap();", "let p = Pair.init(o, true).swap().swap(); let (Some(q), r) = (o, 1);"),
+  ];
+  let compile = |text: &str| -> (bool, bool) {
+    let heap = &mut Heap::new();
+    let mod_ref = heap.alloc_module_reference_from_string_vec(vec!["Demo".to_string()]);
+    let mut syntax_errors = samlang_errors::ErrorSet::new();
+    let _ = samlang_parser::parse_source_module_from_text(text, mod_ref, heap, &mut syntax_errors);
+    let mut sources = HashMap::from([(mod_ref, text.to_string())]);
+    for (m, s) in samlang_parser::builtin_std_raw_sources(heap) {
+      sources.insert(m, s);
+    }
+    let r = compile_sources(heap, sources, vec![mod_ref], false);
+    if std::env::var("VERIF_WITNESS_VERBOSE").is_ok() && let Err(e) = &r {
+      println!("      {}", e.lines().filter(|l| l.starts_with("Error")).collect::<Vec<_>>().join(" | "));
+    }
+    (r.is_ok(), syntax_errors.has_errors())
+  };
+  if !compile(base).0 {
+    println!("WITNESS-SEARCH-BROKEN: the accepted program of the single-fault corpus is rejected");
+    return;
+  }
+  for (what, from, to) in mutants.iter() {
+    if base.matches(from).count() != 1 {
+      println!("WITNESS-SEARCH-BROKEN: the text to replace for `{what}` occurs {} times", base.matches(from).count());
+      return;
+    }
+    let mutant = base.replacen(from, to, 1);
+    if std::env::var("VERIF_WITNESS_VERBOSE").is_ok() {
+      println!("  -- {what}");
+    }
+    let (accepted, syntax) = compile(&mutant);
+    if syntax {
+      println!("WITNESS-SEARCH-BROKEN: the mutant for `{what}` has a syntax error");
+      return;
+    }
+    if accepted {
+      println!("WITNESS: a single-fault mutant of an accepted program ({what}) is compiled: `{from}` replaced by `{to}` in [Demo.sam] {}", base.replace('\n', " "));
+      return;
+    }
+  }
+  println!("WITNESS-SEARCH: no violating history found ({} single-fault mutants of an accepted program)", mutants.len());
+}
+
 // Witness search for unit `loopvars` (C01): self tail calls that permute or shift their parameters; the
 // emitted TypeScript loop (the WebAssembly loop has the same assignments in the same order) may not read a
 // loop variable after overwriting it.
